@@ -110,7 +110,7 @@ BUILT: dict[str, dict[str, str]] = {
         technique="differential property testing (Hypothesis): generated interleaved histories of five clients (two cached, one raw, two gRPC proxies over raw / cached server storages) on one SQLite database; every read through a cache is compared at once with a raw view of the same database",
         category="exploration",
         text="Generated-history differential across clients: writes by any client (incl. finished templates, out-of-order finishes, several studies in one id space, deletes) followed by reads through generated clients, each compared with a fresh raw RDBStorage answer. The recorded finding (a study deleted by another client stays cached) is carved out only for (client, id) pairs that had read the id before the foreign delete.",
-        note="SQLite for the RDB backend; thread interleavings inside a cached client are part of C03.",
+        note="SQLite for the RDB backend; the thread sub-check reuses the C03 scheduler and linearizability oracle on the cached layouts.",
         ref="DESIGN.md 3/C08",
     ),
     "C07": dict(
@@ -140,6 +140,13 @@ BUILT: dict[str, dict[str, str]] = {
         text="Per generated scenario: single-preemption schedules (quick: stratified sample of 60 switch points; thorough: all), generated multi-preemption schedules, and death points of one worker; after a final sweep by a live worker every stale trial must be FAIL, the callback must have run at most once per failure, at most one correct retry per failure and none beyond max_retry, healthy trials untouched.",
         note="Heartbeat age is set by SQL, not by waiting; line-granular preemption; simulated processes; busy timeout 0.",
         ref="DESIGN.md 2.3, 3/C19",
+    ),
+    "C03": dict(
+        technique="schedule enumeration + property-based testing (Hypothesis) with a Wing-Gong linearizability oracle: generated and systematic multi-worker storage scenarios on eleven thread / 'process' / mixed layouts under a deterministic line-level scheduler; every schedule's call history is searched for a sequential order that ModelStorage reproduces (results, exception classes, final state)",
+        category="exploration",
+        text="Ten classic same-object races are run on every layout with all single-preemption schedules (quick tier: sampled on the journal-file and SQLite layouts), plus generated scenarios with single- and multi-preemption schedules; each history must be linearizable against the reference model and end in the backend's real final state. One recorded finding (SQLite check-then-write of the non-state setters) is carved out for exactly that overlap.",
+        note="Line-granular preemption; simulated processes; gRPC server threads not scheduled; busy timeout 0 ('database is locked' allowed as a no-effect outcome).",
+        ref="DESIGN.md 2.3, 3/C03",
     ),
 }
 
